@@ -144,6 +144,8 @@ def run(prog, chk, tier):
                              ("c02", None, "parser accepts well-formed messages (C02 structural clauses)"),
                              ("c10", None, "attribute exposure (C10)"),
                              ("c12", {"zero-padding", "writer-coverage"}, "writers cover their bytes and zero their padding (C12)"),
-                             ("c08", {"constructor-limit", "length-range", "accepts-allowed"}, "constructor and decoder limits agree (C08)")):
+                             ("c08", {"constructor-limit", "length-range", "accepts-allowed"}, "constructor and decoder limits agree (C08)"),
+                             ("c08", {"roundtrip", "address-fidelity"}, "typed values decode back to what was encoded: decode(to_raw(v)) = v per attribute type (C08)"),
+                             ("c11", None, "refused builder operations leave no trace, queries agree with what is serialised (C11)")):
         ok, bad = sub_check(prog, mod, rules)
         chk.ob("premise", what, ok, detail="failing: %s" % bad, how="rule instances of %s re-evaluated on this tree" % mod.upper())
